@@ -164,6 +164,7 @@ type Outcome struct {
 
 	nodeKinds map[string]int
 	cleanup   func()
+	ret       any
 }
 
 // SameRaw reports observable equality including raw keyvalue ids (valid only
